@@ -46,6 +46,8 @@ pub fn negamax(
     // Check periodically to see if we're out of time. If we are, we shouldn't continue the search
     // so we return Err to signal to the caller that the search did not complete.
     if ctx.time_control.should_stop(ctx.nodes_visited) {
+        #[cfg(jgilchrist_tcheran_verif)]
+        crate::engine::search::time_control::verif::stopped_at(game);
         return Err(());
     }
 
